@@ -253,6 +253,7 @@ func runC09(r *Run, rng *Rng, thorough bool) {
 			r.FailSig("never-lies", fmt.Sprintf("decoded-but-invalid claims-set re-encodes to bytes that decode to different getter results:\n before: %s\n after:  %s", g1, g2), sig)
 		}
 	})
+	decodedThenChanged(r, rng, map[bool]int{false: 150, true: 4000}[thorough])
 }
 
 // extRoundTrips: a registered extension profile (base claims embedded + one optional integer
@@ -457,6 +458,7 @@ func runC10(r *Run, rng *Rng, thorough bool) {
 	if thorough {
 		n = 200000
 	}
+	held := &heldOutputs{}
 	eachValidObject(rng, n, func(class string, c psa.IClaims, d ClaimsDesc) {
 		if !conformant(&d) {
 			return
@@ -476,6 +478,14 @@ func runC10(r *Run, rng *Rng, thorough bool) {
 			return
 		}
 		if why := wireFormatOK(b, &d); why != "" {
+			r.Fail("wire-format", why)
+		}
+		// … and stays what it was: outputs of earlier calls are not overwritten by later ones
+		held.add("ValidateAndEncodeClaimsToCBOR", b)
+		if b2, err := psa.EncodeClaimsToCBOR(c); err == nil {
+			held.add("EncodeClaimsToCBOR", b2)
+		}
+		if why := held.check(); why != "" {
 			r.Fail("wire-format", why)
 		}
 	})
@@ -590,4 +600,5 @@ func runC10(r *Run, rng *Rng, thorough bool) {
 	}
 	extWire(r, rng, map[bool]int{false: 400, true: 10000}[thorough])
 	componentCopies(r, rng, map[bool]int{false: 200, true: 5000}[thorough])
+	illFormedTextNeverEmitted(r, rng, map[bool]int{false: 120, true: 3000}[thorough])
 }
